@@ -706,6 +706,27 @@ def _early_exits(par, cur, fld, out):
                     for st in prev.body:
                         if isinstance(st, ast.If) and body_exits(st.body) and not body_exits(st.orelse):
                             out.append(Guard(st.test, False, "early-exit-in-try"))
+                if isinstance(prev, (ast.If, ast.Try, ast.With)):
+                    # nested, conditional early exits (return/raise leave the function from anywhere;
+                    # continue/break leave the loop unless a nested loop intervenes)
+                    for st in _nested_exit_ifs(prev, top=True):
+                        out.append(Guard(st.test, False, "early-exit-nested"))
+
+
+def _nested_exit_ifs(node, top=False):
+    res = []
+    for fld in ("body", "orelse", "finalbody"):
+        for st in getattr(node, fld, []) or []:
+            if isinstance(st, ast.If):
+                ex = body_exits(st.body)
+                if ex and not body_exits(st.orelse) and not top:
+                    res.append(st)
+                res.extend(_nested_exit_ifs(st))
+            elif isinstance(st, (ast.Try, ast.With)):
+                res.extend(_nested_exit_ifs(st))
+    if isinstance(node, ast.Try):
+        pass
+    return res
 
 
 def enclosing(fi: FuncInfo, node: ast.AST, kinds) -> list[ast.AST]:
@@ -827,12 +848,52 @@ def expand(fi: FuncInfo, expr: ast.AST, depth: int = 6, _seen=None, skip=()) -> 
                 ds = local_defs(fi, n.id)
                 if ds and all(d[0] is not None for d in ds) and len({unparse(d[0]) for d in ds}) == 1:
                     return expand(fi, copy.deepcopy(ds[0][0]), depth - 1, _seen | {n.id}, skip)
+                rd = reaching_def(fi, n.id, n, ds)
+                if rd is not None:
+                    return expand(fi, copy.deepcopy(rd), depth - 1, _seen | {n.id}, skip)
             return n
 
         def visit_Lambda(self, n):
             return n
 
     return Sub().visit(copy.deepcopy(expr))
+
+
+def reaching_def(fi: FuncInfo, name: str, use, ds=None):
+    """The plain definition of `name` that reaches `use` when that is decidable on the
+    statement tree: the last definition before the use whose enclosing compound
+    statements all enclose the use as well (so it dominates the use), with no
+    later non-dominating definition in between."""
+    ds = ds if ds is not None else local_defs(fi, name)
+    pos = (getattr(use, "lineno", 0), getattr(use, "col_offset", 0))
+    if any(not hasattr(st, "lineno") for _, st in ds):
+        return None
+    before = [(v, st) for v, st in ds if (st.lineno, st.col_offset) < pos and not any(x is use for x in ast.walk(st))]
+    if not before:
+        return None
+    before.sort(key=lambda d: (d[1].lineno, d[1].col_offset))
+    v, st = before[-1]
+    if v is None:
+        return None
+    # find the original use node's enclosing chain by position (expanded copies keep positions)
+    def chain(node):
+        out = []
+        cur = node
+        while cur in fi.parents:
+            cur = fi.parents[cur]
+            if isinstance(cur, (ast.If, ast.For, ast.While, ast.Try, ast.With)):
+                out.append(cur)
+        return out
+    use_orig = None
+    for x in fi.walk():
+        if isinstance(x, ast.Name) and x.id == name and isinstance(x.ctx, ast.Load) and (x.lineno, x.col_offset) == pos:
+            use_orig = x
+    if use_orig is None:
+        return None
+    uc = chain(use_orig)
+    if all(any(c is u for u in uc) for c in chain(st)):
+        return v
+    return None
 
 
 def term(fi: FuncInfo, expr: ast.AST) -> str:
